@@ -135,6 +135,10 @@ class Ctx:
         # input files written by the harness itself (not by the library)
         self.f_ds9 = self._put('in.reg', DS9_TEXT.encode())
         self.f_crtf = self._put('in.crtf', CRTF_TEXT.encode())
+        # files that more than one format identifier accepts (extension of one format, content signature of another):
+        # which reader they go to must not depend on what was read or written before
+        self.f_crtf_as_reg = self._put('casa_export.reg', CRTF_TEXT.encode())
+        self.f_ds9_as_crtf = self._put('ds9_export.crtf', DS9_TEXT.encode())
         from astropy.io import fits
         self.f_fits = os.path.join(self.dir, 'in.fits')
         with warnings.catch_warnings():
@@ -310,6 +314,8 @@ OPS = {
     'read_ds9': lambda c: _try(lambda: FP.fp(_R().read(c.f_ds9))),
     'read_crtf': lambda c: _try(lambda: FP.fp(_R().read(c.f_crtf, format='crtf'))),
     'read_fits': lambda c: _try(lambda: FP.fp(_R().read(c.f_fits))),
+    'read_crtf_auto': lambda c: _try(lambda: FP.fp(_R().read(c.f_crtf))),
+    'read_ambiguous': lambda c: [_try(lambda: FP.fp(_R().read(c.f_crtf_as_reg))), _try(lambda: FP.fp(_R().read(c.f_ds9_as_crtf)))],
     'list_ops': lambda c: [_try(lambda: FP.fp(c.list_pix[1:4])), _try(lambda: FP.fp(c.list_sky.copy())), len(c.list_mixed), _try(lambda: FP.fp(c.list_pix[0]))],
     'get_formats': lambda c: _try(lambda: [FP.fp(_R().get_formats()), FP.fp(type(c.reg['circle']).get_formats())]),
     # chains: the result of one operation is consumed by another one inside the same event
